@@ -266,9 +266,9 @@ M("c11-result-not-sorted", ["C11"],
 M("c11-arch-filter-dropped-recursive", ["C11"],
   (CI, 'result.extend(variant.get_variants(arch=arch, types=', 'result.extend(variant.get_variants(types='))
 M("c11-uid-scan-removed", ["C11"],
-  (CI, '            for i in self.variants:\n                var = self.variants[i]\n                if var.uid == name:\n                    return var\n            # ... or for a descendant', '            # ... or for a descendant'))
+  (CI, '            for i in self.variants:\n                var = self.variants[i]\n                if var.uid == full:\n                    return var\n            # ... or for a descendant', '            # ... or for a descendant'))
 M("c11-dashed-prefix-descent-removed", ["C11"],
-  (CI, '                if "-" in var.uid and name.startswith(var.uid + "-"):', '                if False:'))
+  (CI, '                if "-" in var.uid and full.startswith(var.uid + "-"):', '                if False:'))
 M("c19-legacy-children-expanded-again", ["C19"],
   (TI, '        if self.type == "variant" and not addon:', '        if self.type == "variant":'))
 M("c04-timestamp-through-float-again", ["C04"],
